@@ -248,3 +248,108 @@ pub fn sched_point(name: &'static str) {
 pub fn take_sched_log() -> Vec<(&'static str, u64)> {
     std::mem::take(&mut *SCHED_LOG.lock().unwrap())
 }
+
+// ---- H9: canonical graph shape of a value (sharing and cycles made explicit) -----------------
+
+/// Renders `value` as a graph: every heap object gets a number in first-visit order and is
+/// written out once; later occurrences are `#n`. Two values have the same shape text iff they
+/// are structurally equal including sharing and cycles. Never prints addresses.
+pub fn value_shape(value: crate::Variants<'_>) -> String {
+    let mut ids = HashMap::new();
+    let mut out = String::new();
+    shape(&value.0, &mut ids, &mut out, 0);
+    out
+}
+
+fn shape(v: &crate::value::ValueRepr, ids: &mut HashMap<usize, usize>, out: &mut String, depth: usize) {
+    use crate::value::{Callable, ValueRepr::*};
+    use std::fmt::Write;
+    if depth > 2000 {
+        out.push_str("<deep>");
+        return;
+    }
+    macro_rules! object {
+        ($ptr:expr, $body:expr) => {{
+            let addr = $ptr as usize;
+            let next = ids.len();
+            match ids.get(&addr) {
+                Some(n) => {
+                    let _ = write!(out, "#{}", n);
+                }
+                None => {
+                    ids.insert(addr, next);
+                    let _ = write!(out, "{}=", next);
+                    $body
+                }
+            }
+        }};
+    }
+    match v {
+        Byte(b) => {
+            let _ = write!(out, "{}b", b);
+        }
+        Int(i) => {
+            let _ = write!(out, "{}", i);
+        }
+        Float(f) => {
+            let _ = write!(out, "f{:x}", f.to_bits());
+        }
+        Tag(t) => {
+            let _ = write!(out, "T{}", t);
+        }
+        String(s) => object!(s.as_ptr(), {
+            let _ = write!(out, "{:?}", &**s);
+        }),
+        Data(d) => object!(&**d as *const crate::value::DataStruct, {
+            let _ = write!(out, "D{}(", d.tag());
+            for (i, f) in d.fields.iter().enumerate() {
+                if i > 0 {
+                    out.push(',');
+                }
+                shape(f.get_repr(), ids, out, depth + 1);
+            }
+            out.push(')');
+        }),
+        Array(a) => object!(&**a as *const crate::value::ValueArray, {
+            let _ = write!(out, "A{:?}[", a.repr());
+            for (i, e) in a.iter().enumerate() {
+                if i > 0 {
+                    out.push(',');
+                }
+                shape(&e.0, ids, out, depth + 1);
+            }
+            out.push(']');
+        }),
+        Function(f) => {
+            let _ = write!(out, "X<{}>", f.id.declared_name());
+        }
+        Closure(c) => object!(&**c as *const crate::value::ClosureData, {
+            let _ = write!(out, "C<{}>(", c.function.name.declared_name());
+            for (i, f) in c.upvars.iter().enumerate() {
+                if i > 0 {
+                    out.push(',');
+                }
+                shape(f.get_repr(), ids, out, depth + 1);
+            }
+            out.push(')');
+        }),
+        PartialApplication(p) => object!(&**p as *const crate::value::PartialApplicationData, {
+            out.push_str("P(");
+            match &p.function {
+                Callable::Closure(c) => shape(&Closure(unsafe { crate::gc::CloneUnrooted::clone_unrooted(c) }), ids, out, depth + 1),
+                Callable::Extern(f) => {
+                    let _ = write!(out, "X<{}>", f.id.declared_name());
+                }
+            }
+            for f in p.args.iter() {
+                out.push(',');
+                shape(f.get_repr(), ids, out, depth + 1);
+            }
+            out.push(')');
+        }),
+        Userdata(u) => object!(&**u as *const Box<dyn crate::api::Userdata> as *const (), {
+            out.push('U');
+        }),
+        Thread(_) => out.push('H'),
+    }
+}
